@@ -277,7 +277,13 @@ fn gen_unamb(g: &mut Gen, kind: i128, year_abs_lt: i128) -> Vec<Item> {
     let mut out = vec![];
     let mut last_sep = ' ';
     for (i, f) in fields.iter().enumerate() {
-        if i > 0 {
+        // a field of fixed digit count may be followed by the next field with nothing in between (yyyyyMMdd, HHmmss, ddDDD ...):
+        // the year of five or more letters, two-letter numeric fields, DDD and every fraction field
+        let glued = i > 0 && g.rng.chance(1, 3) && match (&fields[i - 1], f) {
+            (Item::Field(pc, pw), Item::Field(c, _)) => pc != c && match *pc {
+                'y' => *pw >= 5, 'M' | 'd' | 'w' | 'H' | 'K' | 'h' | 'k' | 'm' | 's' => *pw == 2, 'D' => *pw == 3, 'n' => true, _ => false },
+            _ => false };
+        if i > 0 && !glued {
             if g.rng.chance(1, 6) { out.push(Item::Quoted(" at ".to_string())); last_sep = '\''; }
             else { let mut c = *g.rng.pick(&seps); if c == last_sep { c = if c == '|' { '_' } else { '|' }; }
                    if c == ':' && matches!(fields[i - 1], Item::Field('X', _) | Item::Field('x', _)) { c = if last_sep == ',' { '|' } else { ',' }; }
@@ -483,13 +489,19 @@ pub fn gen_c14(g: &mut Gen, tier: &str) {
         let kind = 1 + (k % 2) as i128;
         let cnt = 2 + (g.rng.next() % 5) as usize;
         let mut pat = String::new(); let mut inp = String::new();
-        if kind == 2 || g.rng.chance(1, 4) { pat.push_str("yyyy-MM-dd "); inp.push_str(*g.rng.pick(&["2024-12-31 ", "9999-12-31 ", "0001-01-01 ", "2023-02-28 "])); }
+        if kind == 2 && g.rng.chance(1, 3) {
+            // the first and the last representable day, and their neighbours
+            pat.push_str("y-MM-dd "); inp.push_str(*g.rng.pick(&["5879611-07-12 ", "5879611-07-11 ", "5879611-07-13 ", "-5879611-06-23 ", "-5879611-06-24 ", "-5879611-06-22 "]));
+        } else if kind == 2 || g.rng.chance(1, 4) { pat.push_str("yyyy-MM-dd "); inp.push_str(*g.rng.pick(&["2024-12-31 ", "9999-12-31 ", "0001-01-01 ", "2023-02-28 "])); }
         if g.rng.chance(3, 4) { pat.push_str("HH:mm:ss"); inp.push_str(if g.rng.chance(5, 6) { "23:59:59" } else { "00:00:00" }); }
         for _ in 0..cnt {
             let (f, vals) = *g.rng.pick(&edge);
             let v = if g.rng.chance(4, 5) { vals[0] } else { *g.rng.pick(vals) };
             pat.push(' '); pat.push_str(f); inp.push(' '); inp.push_str(v);
         }
+        // a zone pushing the instant outward or inward
+        if g.rng.chance(1, 2) { let (f, v) = *g.rng.pick(&[("xxx", "-01:00"), ("xxx", "+01:00"), ("xxxxx", "-23:59:59"), ("xxxxx", "+23:59:59"), ("xx", "-1200"), ("X", "Z"), ("xxx", "+00:00")]);
+            pat.push(' '); pat.push_str(f); inp.push(' '); inp.push_str(v); }
         g.push(true, Input::with_strs("parse", vec![kind, now_year], vec![inp, pat]));
     }
     for p in ["'", "''", "'''", "yyyy'", "'abc", "y'", "\u{0}", "\u{0}\u{0}", "'\u{0}", "''''", "'a''", "y''y", "\u{e9}'\u{e9}", ""] {
